@@ -133,7 +133,7 @@ contract("parglare.parser.Parser._check_parser",
 contract("parglare.parser.Parser._lexical_disambiguation",
          params={"self": "ref[ParserD]", "tokens": "list[ref[Tok]]"}, returns="list[ref[Tok]]",
          requires=["not self.debug",
-                   "forall(0, len(tokens), lambda i: allocated(tokens[i]))"],
+                   "forall(0, len(tokens), lambda i: live(tokens[i]))"],
          ensures=[
              "implies(len(tokens) <= 1, result == tokens)",
              "implies(len(tokens) > 1, len(result) >= 1)",
